@@ -79,3 +79,17 @@ TABLE['C20'] = {
     'assumptions': ['machine arithmetic treated as mathematical (rotation modulo 360 over the reals)'],
     'explanation': 'Each of the six setters is verified: the stored value, and the single dispatch invocation it performs (ghost invocation log) carrying the value the getter returns afterwards; both constructors store fresh vectors.',
 }
+
+TABLE['C12'] = {
+    'modules': ['tree_spec'], 'replay': 'tree_replay', 'level': 'proof',
+    'trusted_base': T_STATE,
+    'assumptions': ['Handle.load does not call its own handle'],
+    'explanation': 'Two-state contract of Handle.__call__/clear/cached over the ghost call counter (load called at most once while cached, result identical to the cache, no clause depends on the truth value of the resource); every access path (ResourceMap.__getitem__, StaticResourceMap, Loop.switch) is verified against that contract only.',
+}
+
+TABLE['C11'] = {
+    'modules': ['tree_spec'], 'replay': 'tree_replay', 'level': 'proof',
+    'trusted_base': T_STATE + ['collections.ChainMap modelled as the list of its layers (lookup: first layer holding the key; writes/pop/clear: layer 0)', 'str.split(sep): a non-empty list of components'],
+    'assumptions': ['an inserted value is not already part of a tree (value.parent is None)'],
+    'explanation': 'Tree invariant node_ok for EVERY map object (children record container and name; a name is a handle in some layer or a sub-map, never both), preserved by __setitem__ (three nested loop invariants) and clear; get/__getitem__ agreement by a ghost-client lemma.',
+}
